@@ -109,7 +109,7 @@ def generate(rng, index, tier):
                 lk = worlds.op_lookup(rng)
                 ops.append(_decorate(rng, lk, (len(lk['path'].encode()) + 39) // 32))
             elif r < 0.85:
-                g = worlds.op_gstr(rng, ctx.new_string_id())
+                g = worlds.op_gstr(rng, ctx.new_string_id(), allow_empty=True)
                 ops.append(_decorate(rng, g, (len(g['text'].encode()) + 47) // 32))
             else:
                 n = rng.pick([1, 31, 32, 33, 40, 63, 64])
@@ -286,7 +286,8 @@ def execute(scn):
                 bump('probe:gstr_multi_chunk')
             if nchunks >= 3:
                 bump('probe:gstr_none_fragment')
-            expected_strings[op['id']] = op['text']
+            if op['text']:
+                expected_strings[op['id']] = op['text']      # (an empty string is reported, but defines nothing to look up)
             good = [t for t in got if type(t).__name__ == gname]
             if len(good) != 1 or len(got) != 1:
                 viols.append({'tag': 'string-trace-count', 'sig': 'n=%d' % len(good),
